@@ -39,10 +39,13 @@ class EvalCtx(object):
             return None
         self.nodes.add(node)
         self.level += 1
-        result = self._evaluate(node)  # type: ignore[no-untyped-call]
-        self.level -= 1
-        self.nodes.remove(node)
-        return result  # type: ignore[no-any-return]
+        try:
+            # the context outlives the request in the objects it created:
+            # it must be left clean when the evaluation is interrupted
+            return self._evaluate(node)  # type: ignore[no-untyped-call,no-any-return]
+        finally:
+            self.level -= 1
+            self.nodes.remove(node)
 
     def _evaluate(self, node):  # type: ignore[no-untyped-def]
         node_type = type(node)
